@@ -142,7 +142,7 @@ impl<Key, Value> Store<Key, Value>
     }
 
     pub(crate) fn update(&self, key: &Key, value: Option<Value>, time_to_live: Option<Duration>, remove_time_to_live: bool) -> UpdateResponse<Value> {
-        if let Some(mut existing_value) = self.store.get_mut(key) {
+        if let Some(mut existing_value) = self.store.get_mut(key).filter(|stored_value| stored_value.is_alive(&self.clock)) {
             let existing_expiry = existing_value.expire_after();
             let new_expiry = existing_value.update(value, time_to_live, remove_time_to_live, &self.clock);
 
@@ -166,7 +166,9 @@ impl<Key, Value> Store<Key, Value>
 
     pub(crate) fn is_present(&self, key: &Key) -> bool {
         let maybe_value = self.store.get(key);
-        maybe_value.is_some()
+        maybe_value
+            .filter(|stored_value| stored_value.is_alive(&self.clock))
+            .is_some()
     }
 
     fn contains(&self, key: &Key) -> Option<KeyValueRef<Key, StoredValue<Value>>> {
